@@ -16,6 +16,7 @@ from lianvc.contracts import Contract, ClassInfo, LoopSpec, Registry
 from lianvc.engine import V, Outcome, BITW
 
 PROPERTY = 'C17'
+REPLAY = 'c17_replay.py'
 ER = 'src/lian/events/event_return.py'
 EM = 'src/lian/events/event_manager.py'
 HT = 'src/lian/events/handler_template.py'
@@ -164,10 +165,122 @@ def build():
                      requires=[('langs-is-str-set-or-list', reg_langs_ok),
                                ('handler-lists-distinct', lambda c: distinct_lists(c, c.old))],
                      ensures=[('appends-to-exactly-that-event', register_effect),
+                              ('old-entries-keep-their-position', lambda c: z3.ForAll([z3.Int('a'), z3.Int('q')], z3.Implies(
+                                  z3.And(z3.Int('a') > 0, z3.Int('a') < c.old.next, z3.Int('q') >= 0,
+                                         z3.Int('q') < z3.Length(z3.Select(c.old.field('list'), z3.Int('a')))),
+                                  S.at(z3.Select(c.new.field('list'), z3.Int('a')), z3.Int('q')) == S.at(z3.Select(c.old.field('list'), z3.Int('a')), z3.Int('q'))),
+                                  patterns=[S.at(z3.Select(c.new.field('list'), z3.Int('a')), z3.Int('q'))])),
                               ('event-table-unchanged', lambda c: z3.And(
                                   c.new.dom(handlers_dict(c, c.new)) == c.old.dom(handlers_dict(c, c.old)),
                                   c.new.val(handlers_dict(c, c.new)) == c.old.val(handlers_dict(c, c.old))))],
                      modifies=lambda c: {'list': True}))
+
+    # ---- EventManager.register_list ----------------------------------------------------------------------------
+    IA_ = z3.ArraySort(z3.IntSort(), z3.IntSort())
+    j_r, k_r, a_r = z3.Ints('j k a')
+
+    def rl_ghost_init(ex, st):
+        st.ghost['pos'] = z3.Const('g_pos0', IA_)               # pos[j]: index at which element j was placed in its event's list
+        st.ghost['added'] = z3.K(z3.IntSort(), z3.IntVal(0))    # added[T]: registrations appended to list T so far (fold)
+
+    def rl_after_register(ex, st, bound, res, old):
+        g = st.ghost
+        j = g['loop1_i']
+        d = old.attr(bound['self'].t, 'event_handlers')
+        ev = bound['event'].t
+        kn = old.has(d, ev)
+        T = S.addr(old.get(d, ev))
+        g['pos'] = z3.Store(g['pos'], j, z3.If(kn, z3.Length(old.list(T)), z3.Select(g['pos'], j)))
+        g['added'] = z3.Store(g['added'], T, z3.Select(g['added'], T) + z3.If(kn, 1, 0))
+
+    def rl_elem(c, j):
+        return c.pre.list(c.p.handler_list)[j]
+
+    def rl_known(c, j):
+        d = c.pre.attr(c.p.self, 'event_handlers')
+        return c.pre.has(d, c.pre.attr(rl_elem(c, j), 'event'))
+
+    def rl_T(c, j):
+        d = c.pre.attr(c.p.self, 'event_handlers')
+        return S.addr(c.pre.get(d, c.pre.attr(rl_elem(c, j), 'event')))
+
+    def rl_langs_ok(c):
+        n = z3.Length(c.pre.list(c.p.handler_list))
+        l = c.pre.attr(rl_elem(c, j_r), 'langs')
+        return z3.ForAll([j_r], z3.Implies(z3.And(j_r >= 0, j_r < n),
+                                           z3.Or(S.is_str(l), S.has_type(l, Set(Any), c.pre.next), S.has_type(l, LANGS, c.pre.next))))
+
+    def rl_lists(c, upto):
+        """every pre-existing list keeps its old content as a prefix and grew by exactly added[.]"""
+        old_l, new_l = z3.Select(c.pre.field('list'), a_r), z3.Select(c.cur.field('list'), a_r)
+        return S.forall([a_r], z3.Implies(z3.And(a_r > 0, a_r < c.pre.next), z3.And(
+            z3.Select(c.g.added, a_r) >= 0,
+            z3.Length(new_l) == z3.Length(old_l) + z3.Select(c.g.added, a_r),
+            z3.ForAll([k_r], z3.Implies(z3.And(k_r >= 0, k_r < z3.Length(old_l)), S.at(new_l, k_r) == S.at(old_l, k_r)),
+                      patterns=[S.at(new_l, k_r)]))),
+            patterns=[z3.Select(c.cur.field('list'), a_r), z3.Select(c.g.added, a_r)])
+
+    def rl_placed(c, upto):
+        T = rl_T(c, j_r)
+        p = z3.Select(c.g.pos, j_r)
+        entry = S.at(z3.Select(c.cur.field('list'), T), p)
+        l = c.pre.attr(rl_elem(c, j_r), 'langs')
+        return z3.ForAll([j_r], z3.Implies(z3.And(j_r >= 0, j_r < upto, rl_known(c, j_r)), z3.And(
+            p >= z3.Length(z3.Select(c.pre.field('list'), T)), p < z3.Length(z3.Select(c.cur.field('list'), T)),
+            S.is_tup(entry), z3.Length(S.items(entry)) == 2,
+            S.items(entry)[1] == c.pre.attr(rl_elem(c, j_r), 'handler'),
+            z3.Implies(S.has_type(l, LANGS), S.items(entry)[0] == l))))
+
+    def rl_order(c, upto):
+        return z3.ForAll([j_r, k_r], z3.Implies(z3.And(j_r >= 0, j_r < k_r, k_r < upto, rl_known(c, j_r), rl_known(c, k_r),
+                                                       rl_T(c, j_r) == rl_T(c, k_r)),
+                                                z3.Select(c.g.pos, j_r) < z3.Select(c.g.pos, k_r)))
+
+    def rl_unknown_ignored(c, upto):
+        """added[T] counts only lists of the event table"""
+        d = c.pre.attr(c.p.self, 'event_handlers')
+        e = z3.Const('e', S.PyObj())
+        return z3.ForAll([a_r], z3.Implies(z3.Not(z3.Exists([e], z3.And(c.pre.has(d, e), S.addr(c.pre.get(d, e)) == a_r))),
+                                           z3.Select(c.g.added, a_r) == 0))
+
+    def rl_table_typed(c):
+        """values of the event table are allocated handler lists (the declared field type Dict(Any, List))"""
+        d = c.pre.attr(c.p.self, 'event_handlers')
+        e = z3.Const('e', S.PyObj())
+        return z3.ForAll([e], z3.Implies(c.pre.has(d, e), S.has_type(c.pre.get(d, e), HLIST, c.pre.next)))
+
+    reg.add(Contract(EM, 'EventManager.register_list',
+                     dict(self=Obj('EventManager'), handler_list=List(Obj('EventHandler'))), returns=NoneT,
+                     ghost_init=rl_ghost_init, ghost_hooks={'after_call:EventManager.register': rl_after_register},
+                     requires=[('langs-are-str-set-or-list', rl_langs_ok),
+                               ('handler-lists-distinct', lambda c: distinct_lists(c, c.old)),
+                               ('event-table-well-typed', rl_table_typed),
+                               ('argument-is-not-a-handler-list', lambda c: z3.Not(z3.Exists(
+                                   [z3.Const('e', S.PyObj())], z3.And(c.old.has(handlers_dict(c, c.old), z3.Const('e', S.PyObj())),
+                                                                      c.old.get(handlers_dict(c, c.old), z3.Const('e', S.PyObj())) == c.p.handler_list))))],
+                     loops={1: LoopSpec(invariants=[
+                         ('lists-grow-by-added', lambda c: rl_lists(c, c.i)),
+                         ('each-placed-at-its-position', lambda c: rl_placed(c, c.i)),
+                         ('registration-order-kept', lambda c: rl_order(c, c.i)),
+                         ('unknown-events-ignored', lambda c: rl_unknown_ignored(c, c.i)),
+                         ('tables-untouched', lambda c: z3.And(c.cur.field('attr:event_handlers') == c.pre.field('attr:event_handlers'),
+                                                                c.cur.field('dom') == c.pre.field('dom'), c.cur.field('val') == c.pre.field('val'),
+                                                                c.cur.field('attr:event') == c.pre.field('attr:event'),
+                                                                c.cur.field('attr:langs') == c.pre.field('attr:langs'),
+                                                                c.cur.field('attr:handler') == c.pre.field('attr:handler')))])},
+                     ensures=[('lists-grow-by-added', lambda c: rl_lists(c, z3.Length(c.pre.list(c.p.handler_list)))),
+                              ('each-placed-at-its-position', lambda c: rl_placed(c, z3.Length(c.pre.list(c.p.handler_list)))),
+                              ('registration-order-kept', lambda c: rl_order(c, z3.Length(c.pre.list(c.p.handler_list)))),
+                              ('unknown-events-ignored', lambda c: rl_unknown_ignored(c, z3.Length(c.pre.list(c.p.handler_list))))],
+                     modifies=lambda c: {'list': True}))
+
+    # ---- EventData.__init__ (non-dict in_data; the SimpleNamespace conversion of dict payloads is library code) ----
+    reg.add(Contract(HT, 'EventData.__init__', dict(self=Obj('EventData'), lang=Any, event=Any, in_data=Any, out_data=Any),
+                     returns=NoneT,
+                     requires=[('in_data-is-not-a-dict', lambda c: z3.Not(z3.And(S.is_ref(c.p.in_data), S.tyof(S.addr(c.p.in_data)) == S.type_id('dict'))))],
+                     ensures=[('fields-are-the-arguments', lambda c: z3.And(c.new.attr(c.p.self, 'lang') == c.p.lang, c.new.attr(c.p.self, 'event') == c.p.event,
+                                                                             c.new.attr(c.p.self, 'in_data') == c.p.in_data, c.new.attr(c.p.self, 'out_data') == c.p.out_data))],
+                     modifies=lambda c: {'attr:lang': [c.p.self], 'attr:event': [c.p.self], 'attr:in_data': [c.p.self], 'attr:out_data': [c.p.self]}))
 
     # ---- EventManager.notify ---------------------------------------------------------------------------------
     IA = z3.ArraySort(z3.IntSort(), z3.IntSort())
@@ -321,3 +434,103 @@ def build():
                               ('e-unknown-event-is-noop', ens_e)],
                      modifies=lambda c: {'attr:out_data': [c.p.data], 'attr:in_data': [c.p.data]}))
     return reg
+
+
+# ---- static obligations on the default registration table (evaluated from the real AST) ------------------------------
+def _res(name, ok, detail=''):
+    return dict(name=f'{PROPERTY}:static:{name}', kind='static', verdict='unsat' if ok else 'sat', backend='ast-evaluation',
+                time_s=0.0, model=None if ok else {'detail': detail}, reason=detail if not ok else '')
+
+
+def default_table_obligations(reg, tier):
+    import ast
+    from lianvc import source
+    out = []
+    em = source.load(EM)
+    init = em.function('EventManager.__init__')
+    # (1) the event table literal: keys are known event kinds, values are pairwise distinct attributes each assigned a fresh [] once
+    table = None
+    fresh_lists = {}
+    for st in init.body:
+        if isinstance(st, ast.Assign) and len(st.targets) == 1 and isinstance(st.targets[0], ast.Attribute) \
+                and isinstance(st.targets[0].value, ast.Name) and st.targets[0].value.id == 'self':
+            nm = st.targets[0].attr
+            if nm == 'event_handlers' and isinstance(st.value, ast.Dict):
+                table = st.value
+            elif isinstance(st.value, ast.List) and not st.value.elts:
+                fresh_lists[nm] = fresh_lists.get(nm, 0) + 1
+    if table is None:
+        raise source.SourceError('EventManager.__init__: event_handlers dict literal not found (contract out of date)')
+    keys, vals = [], []
+    for k, v in zip(table.keys, table.values):
+        keys.append(source.const_eval(em, k))
+        vals.append(v.attr if isinstance(v, ast.Attribute) and isinstance(v.value, ast.Name) and v.value.id == 'self' else None)
+    out.append(_res('event-table-keys-are-distinct-ints', all(isinstance(k, int) for k in keys) and len(set(keys)) == len(keys), str(keys)))
+    out.append(_res('event-table-values-are-distinct-fresh-lists',
+                    all(v is not None and fresh_lists.get(v) == 1 for v in vals) and len(set(vals)) == len(vals), str(vals)))
+    missing = [v for v in vals if v not in HANDLER_LIST_ATTRS]
+    out.append(_res('event-table-values-are-declared-handler-lists', not missing, str(missing)))
+    # (2) the default registration list: every event is a key of the table, every langs is a list of strings
+    er_mod = source.load('src/lian/events/event_registers.py')
+    enable = er_mod.function('DefaultEventHandlerManager.enable')
+    calls = [n for n in ast.walk(enable) if isinstance(n, ast.Call) and ast.unparse(n.func).endswith('register_list')]
+    if len(calls) != 1 or not isinstance(calls[0].args[0], ast.List):
+        raise source.SourceError('DefaultEventHandlerManager.enable: register_list([...]) literal not found (contract out of date)')
+    per_event = {}
+    bad_event, bad_langs, bad_shape = [], [], []
+    for el in calls[0].args[0].elts:
+        if not (isinstance(el, ast.Call) and ast.unparse(el.func) == 'EventHandler' and not el.args):
+            bad_shape.append(ast.unparse(el)[:60])
+            continue
+        kw = {k.arg: k.value for k in el.keywords}
+        if set(kw) != {'event', 'handler', 'langs'}:
+            bad_shape.append(ast.unparse(el)[:60])
+            continue
+        ev = source.const_eval(er_mod, kw['event'])
+        langs = source.const_eval(er_mod, kw['langs'])
+        if ev not in keys:
+            bad_event.append((ast.unparse(kw['event']), ast.unparse(kw['handler'])))
+        if not (isinstance(langs, list) and langs and all(isinstance(x, str) for x in langs)):
+            bad_langs.append((ast.unparse(kw['handler']), repr(langs)))
+        per_event.setdefault(ev, []).append(dict(handler=ast.unparse(kw['handler']), langs=langs))
+    out.append(_res('default-table-entries-are-EventHandler(event,handler,langs)', not bad_shape, str(bad_shape)))
+    out.append(_res('default-table-events-are-known (else the registration is dropped with a warning)', not bad_event, str(bad_event)))
+    out.append(_res('default-table-langs-are-nonempty-lists-of-strings', not bad_langs, str(bad_langs)))
+    # the EventHandler dataclass has exactly the three fields register_list reads
+    ht = source.load(HT)
+    cls = ht.classes.get('EventHandler')
+    fields = [n.target.id for n in cls.body if isinstance(n, ast.AnnAssign)] if cls else []
+    out.append(_res('EventHandler-is-a-dataclass-with-langs-event-handler',
+                    sorted(fields) == ['event', 'handler', 'langs'] and any('dataclass' in d for d in ht.class_decorators('EventHandler')), str(fields)))
+    default_table_obligations.table = {str(k): v for k, v in sorted(per_event.items())}
+    return out
+
+
+EXTRA_OBLIGATIONS = [default_table_obligations]
+
+ASSUMPTIONS = [
+    'event handlers are opaque callbacks: a handler may replace data.out_data and allocate, returns None or an int in [0,15]; '
+    'it does not register handlers, nor write data.in_data/lang/event, during notification',
+    "a handler 'succeeds' iff its return value != UNPROCESSED (python: None != 0), and contributes norm(r) = (r & 0b1110) | SUCCESS to the result "
+    '(None and 0 contribute nothing) — reading of the statement recorded in DESIGN.md §4 C17',
+    'register: langs is a str, a set or a list (every call site in src/lian passes one of these); other iterables (tuples) are stored as given',
+    'EventData.__init__ is proved for non-dict in_data; dict payloads go through types.SimpleNamespace (library, trusted)',
+    'EventManager.__init__ itself (plugin loading through importlib/inspect) is not under contract; the facts the proofs need from it '
+    '(distinct fresh handler lists, table keys) are discharged as static obligations on its AST',
+    'bool and int are treated as disjoint value kinds (True == 1 is not modelled)',
+]
+
+EXPLANATION = ('Deductive proof, function by function, of the event dispatch contract on the real source of events/event_manager.py and '
+               'events/event_return.py: VCs generated from the AST by lianvc, discharged by z3. notify: clauses (a)-(e) of the statement as '
+               'postconditions over a ghost invocation log; register/register_list/add_handler: exact effect on the per-event lists; '
+               'event_return: bit-level specifications; default table: evaluated from the AST.')
+
+QUICK_CANARIES = {
+    'EventManager.notify': ['swap-and-or', 'negate-condition', 'delete-stmt[data.in_data = data.out_data]', 'delete-stmt[return event_return]',
+                            'delete-stmt[event_return = er.sync_event_return'],
+    'sync_event_return': ['negate-condition', 'delete-stmt[global_event_return |= EventHandlerReturnKind.STOP_OTHER'],
+    'EventManager.register': ['negate-condition', 'delete-stmt[langs = [langs]]', 'delete-stmt[self.add_handler'],
+    'EventManager.register_list': ['delete-stmt[self.register'],
+    'EventManager.add_handler': ['delete-stmt[handler_list.append'],
+}
+MIN_CANARY_KILL_RATIO = 0.9
